@@ -87,6 +87,15 @@ Theorem every_close_rerandomises (st : stage K) rho sig s : close_of st rho = So
   exists stored, closing_view st = Some (stored, s) /\ sig = randomize rho stored.
 Proof. destruct st; cbn [close_of closing_view]; try discriminate; intros [= <- <-]; eexists; split; reflexivity. Qed.
 
+(** a zero randomiser (a generator fault at exactly that draw): the closing message then carries the identity pair - which the
+    merchant refuses - and never the stored signature, whose first element is not the identity *)
+Theorem zero_randomiser_close_sends_identity_pair (st : stage K) sig s : close_of st f0 = Some (sig, s) ->
+  sig = (f0, f0) /\ forall stored, closing_view st = Some (stored, s) -> fst stored <> f0 -> sig <> stored.
+Proof. intros H. destruct (every_close_rerandomises st f0 sig s H) as (stored & Hv & ->).
+  assert (E : randomize f0 stored = (f0, f0)) by (unfold randomize; f_equal; ring).
+  split; [exact E|]. intros stored' Hv' Hne Heq. rewrite Hv in Hv'. injection Hv' as <-.
+  rewrite E in Heq. apply Hne. rewrite <- Heq. reflexivity. Qed.
+
 (** ** the establish message: the four revealed commitment scalars are draws of this message; every other atom is an atom of
     one of its two signature-request proofs (covered above) *)
 Theorem establish_revealed_scalars_are_fresh_draws (close_tag : K) (pk : pkey K) cid nonce lock cb mb bfs kbfs ks bfc kbfc kclose c :
